@@ -4,6 +4,7 @@ from __future__ import annotations
 import itertools
 import pickle
 import random
+import os
 import shutil
 import tempfile
 
@@ -114,7 +115,7 @@ def _param_reads(c: rs.SysCase, v: int, tok: str):
             q = c01._pt(tok, pt)
             day = dt.date(*parse_date(q.split("/")[1]))
             vals = [(st, val) for (st, val) in c.params[i] if st <= day.toordinal()]
-            name = rs.param_name(i)
+            name = rs.param_name(i, c)
             out.append((name if "." in name else "." + name, day.isoformat(), max(vals)[1]))
         elif k == "o1":
             walk(e[2])
@@ -348,7 +349,7 @@ def _real_reads(c: rs.SysCase, sim) -> str:
         return f"{v}@{tok}"
 
     import datetime as dt
-    pid = {("." + rs.param_name(i) if "." not in rs.param_name(i) else rs.param_name(i)): i for i in range(len(getattr(c, "params", None) or []))}
+    pid = {("." + rs.param_name(i, c) if "." not in rs.param_name(i, c) else rs.param_name(i, c)): i for i in range(len(getattr(c, "params", None) or []))}
 
     def pkey(pn):
         val = pn.value.tolist() if hasattr(pn.value, "tolist") else pn.value
@@ -546,9 +547,15 @@ def impl(case: Case) -> str:
         return out
     finally:
         import gc
-        sim = None
+        sim = _problems = configure = after_request = None
+        state.clear()
         gc.collect()                 # the on-disk stores remove their own directories in __del__
         if tmp["dir"]:
+            # a store that is still alive here (kept by a frame of an exception, by a returned array ...) would try to
+            # remove its sub-directory again in __del__: tell it the directory is not its to remove any more
+            for o in gc.get_objects():
+                if type(o).__name__ == "OnDiskStorage" and str(getattr(o, "storage_dir", "")).startswith(tmp["dir"]):
+                    o.preserve_storage_dir = True
             shutil.rmtree(tmp["dir"], ignore_errors=True)
 
 
@@ -642,6 +649,17 @@ def generate(rng: random.Random, tier: str):
         ext = {"divide", "params", "requests"} if j % 2 else None
         c = rs.gen_case(rng, kind="ranked", msl=1, nreq=rng.randint(3, 7), features=ext)
         # a third of the plain requests ask for the whole trace of the request (compared with the model's log when tracing is on)
+        if c.params:
+            # one more variable reads EVERY parameter of the tree (by attribute or by item, depending on its index) and is
+            # requested at a date where all of them are defined: a key that an object standing in for the parameter node
+            # shadows (tracing proxy) shows as a difference between the traced and the plain run
+            e = ("c", 0)
+            for i in range(len(c.params)):
+                e = ("o2", 0, e, ("o1", 150 + 2 + i, ("o1", rs.OP_PARAM, ("v", i, rng.choice(["same", "first_month", "this_year"]), False))))
+            c.vars.append(rs.Var(entity=rng.randint(0, 1), vtype="int", unit="month", dflt=0, formulas=[(1, e)]))
+            if c.outputs:
+                c.outputs.append(0)
+            c.reqs.insert(rng.randrange(len(c.reqs) + 1), ("calc", len(c.vars) - 1, rs.MONTHS[3]))
         c.reqs = [(("tcalc",) + tuple(r[1:]) if r[0] == "calc" and rng.random() < 0.35 else r) for r in c.reqs]
         if c.inputs and rng.random() < 0.4:
             # an input is written AGAIN (same period, same length, other values) after requests that read it, then the
